@@ -246,6 +246,117 @@ class _CondTemp(ast.NodeTransformer):
         return node
 
 
+class _DeMorgan(ast.NodeTransformer):
+    """A boolean operation in a boolean context (test of if / while / conditional expression / assert, operand of `not`) is
+    respelled through De Morgan: a and b -> not (not a or not b); a or b -> not (not a and not b)."""
+
+    @staticmethod
+    def _dm(e: ast.expr) -> ast.expr:
+        if isinstance(e, ast.BoolOp):
+            other = ast.Or() if isinstance(e.op, ast.And) else ast.And()
+            inner = ast.BoolOp(op=other, values=[ast.UnaryOp(op=ast.Not(), operand=v) for v in e.values])
+            return ast.copy_location(ast.UnaryOp(op=ast.Not(), operand=inner), e)
+        return e
+
+    def visit_If(self, n: ast.If) -> ast.AST:
+        self.generic_visit(n)
+        n.test = self._dm(n.test)
+        return n
+
+    def visit_While(self, n: ast.While) -> ast.AST:
+        self.generic_visit(n)
+        n.test = self._dm(n.test)
+        return n
+
+    def visit_IfExp(self, n: ast.IfExp) -> ast.AST:
+        self.generic_visit(n)
+        n.test = self._dm(n.test)
+        return n
+
+
+def _negate(e: ast.expr) -> ast.expr:
+    """The way a person writes the opposite test: `x is None` -> `x is not None`, `not x` -> `x`, otherwise `not (e)`."""
+    opp = {ast.Is: ast.IsNot, ast.IsNot: ast.Is, ast.In: ast.NotIn, ast.NotIn: ast.In, ast.Eq: ast.NotEq, ast.NotEq: ast.Eq}
+    if isinstance(e, ast.Compare) and len(e.ops) == 1 and type(e.ops[0]) in opp:
+        return ast.copy_location(ast.Compare(left=e.left, ops=[opp[type(e.ops[0])]()], comparators=e.comparators), e)
+    if isinstance(e, ast.UnaryOp) and isinstance(e.op, ast.Not):
+        return e.operand
+    return ast.copy_location(ast.UnaryOp(op=ast.Not(), operand=e), e)
+
+
+class _Blocks(ast.NodeTransformer):
+    """Base: rewrites every statement list below a function."""
+
+    def _block(self, body: List[ast.stmt], owner: ast.AST, fld: str) -> List[ast.stmt]:
+        raise NotImplementedError
+
+    def generic_visit(self, node: ast.AST) -> ast.AST:
+        super().generic_visit(node)
+        for fld in ('body', 'orelse', 'finalbody'):
+            v = getattr(node, fld, None)
+            if isinstance(v, list) and v and isinstance(v[0], ast.stmt) and not isinstance(node, (ast.Module, ast.ClassDef)):
+                setattr(node, fld, self._block(v, node, fld))
+        return node
+
+
+class _GuardToNest(_Blocks):
+    """Inside a loop body `if c: continue; REST` -> `if not c: REST`; at the top level of a function that returns nothing but
+    None, `if c: return; REST` -> `if not c: REST` (REST non-empty in both cases)."""
+
+    def _block(self, body: List[ast.stmt], owner: ast.AST, fld: str) -> List[ast.stmt]:
+        loop = isinstance(owner, (ast.For, ast.AsyncFor, ast.While)) and fld == 'body'
+        fn = isinstance(owner, (ast.FunctionDef, ast.AsyncFunctionDef)) and fld == 'body'
+        if fn:
+            rets = [x for x in ast.walk(owner) if isinstance(x, ast.Return)]
+            gen = any(isinstance(x, (ast.Yield, ast.YieldFrom)) for x in ast.walk(owner))
+            fn = not gen and all(r.value is None or (isinstance(r.value, ast.Constant) and r.value.value is None) for r in rets)
+        if not (loop or fn):
+            return body
+        for i, st in enumerate(body[:-1]):
+            if isinstance(st, ast.If) and not st.orelse and len(st.body) == 1:
+                only = st.body[0]
+                hit = (loop and isinstance(only, ast.Continue)) or (fn and isinstance(only, ast.Return) and only.value is None)
+                if hit:
+                    rest = self._block(body[i + 1:], owner, fld)
+                    return body[:i] + [ast.copy_location(ast.If(test=_negate(st.test), body=rest, orelse=[]), st)]
+        return body
+
+
+class _ElseAfterJump(_Blocks):
+    """`if c: ...; return/raise/continue/break` followed by REST -> the same `if` with REST as its else branch."""
+
+    def _block(self, body: List[ast.stmt], owner: ast.AST, fld: str) -> List[ast.stmt]:
+        for i, st in enumerate(body[:-1]):
+            if isinstance(st, ast.If) and not st.orelse and isinstance(st.body[-1], (ast.Return, ast.Raise, ast.Continue, ast.Break)):
+                rest = self._block(body[i + 1:], owner, fld)
+                return body[:i] + [ast.copy_location(ast.If(test=st.test, body=st.body, orelse=rest), st)]
+        return body
+
+
+class _TupleAssign(_Blocks):
+    """Two adjacent independent call-free assignments to different names become one tuple assignment: a = x; b = y -> a, b = x, y."""
+
+    def _block(self, body: List[ast.stmt], owner: ast.AST, fld: str) -> List[ast.stmt]:
+        out: List[ast.stmt] = []
+        i = 0
+        simple = _SwapIndependent._simple
+        while i < len(body):
+            a = body[i]
+            b = body[i + 1] if i + 1 < len(body) else None
+            if b is not None and simple(a) and simple(b):
+                ta, tb = a.targets[0].id, b.targets[0].id  # type: ignore[attr-defined]
+                reads_b = {x.id for x in ast.walk(b.value) if isinstance(x, ast.Name)}  # type: ignore[attr-defined]
+                if ta != tb and ta not in reads_b:
+                    tgt = ast.Tuple(elts=[ast.Name(id=ta, ctx=ast.Store()), ast.Name(id=tb, ctx=ast.Store())], ctx=ast.Store())
+                    val = ast.Tuple(elts=[a.value, b.value], ctx=ast.Load())  # type: ignore[attr-defined]
+                    out.append(ast.copy_location(ast.Assign(targets=[tgt], value=val), a))
+                    i += 2
+                    continue
+            out.append(a)
+            i += 1
+        return out
+
+
 class _Keywordise(ast.NodeTransformer):
     """f(a, b) -> f(x=a, y=b) for every call whose parameter names are known."""
 
@@ -292,6 +403,14 @@ def make_twin(repo: str, dest: str, rename: bool, extra: str = '') -> None:
                     tree = _SwapIndependent().visit(tree)
                 if extra == 'condtmp':
                     tree = _CondTemp().visit(tree)
+                if extra == 'demorgan':
+                    tree = _DeMorgan().visit(tree)
+                if extra == 'nest':
+                    tree = _GuardToNest().visit(tree)
+                if extra == 'elsejump':
+                    tree = _ElseAfterJump().visit(tree)
+                if extra == 'tuple':
+                    tree = _TupleAssign().visit(tree)
                 if extra == 'log':
                     has = any(isinstance(x, ast.ImportFrom) and any(a.name == 'log' for a in x.names) for x in tree.body)
                     tree = _LogEntry(has).visit(tree)
@@ -308,7 +427,7 @@ _SIGS: List[Dict[tuple, List[str]]] = [{}]
 def run(repo: str = '/repo', props: str = 'all') -> int:
     rc_all = 0
     _SIGS[0] = _signatures(repo)
-    kinds = [(False, ''), (True, ''), (False, 'flip'), (False, 'swap'), (False, 'rettmp'), (False, 'ifexp'), (False, 'aug'), (False, 'log'), (False, 'kwargs'), (False, 'reorder'), (False, 'condtmp')]
+    kinds = [(False, ''), (True, ''), (False, 'flip'), (False, 'swap'), (False, 'rettmp'), (False, 'ifexp'), (False, 'aug'), (False, 'log'), (False, 'kwargs'), (False, 'reorder'), (False, 'condtmp'), (False, 'demorgan'), (False, 'nest'), (False, 'elsejump'), (False, 'tuple')]
     if os.environ.get('VERIF_TWIN_KINDS'):
         want = os.environ['VERIF_TWIN_KINDS'].split(',')
         kinds = [k for k in kinds if (('rename' if k[0] else 'plain') if not k[1] else k[1]) in want]
